@@ -7,6 +7,7 @@ import (
 	"strings"
 	"testing"
 	"testing/synctest"
+	"time"
 
 	"github.com/anacrolix/dht/v2"
 
@@ -383,6 +384,9 @@ func runC08(t *testing.T, c explore.Case) (res explore.Result) {
 					done = make(chan dht.QueryResult, 1)
 					go func() { done <- y.S.Ping(src) }()
 					synctest.Wait()
+					if y.budget > 0 {
+						y.budget-- // our own ping is a rate-limited send
+					}
 					for _, o := range DecodeWrites(y.Take()) {
 						if o.Y() == "q" {
 							tid = o.T()
@@ -407,6 +411,38 @@ func runC08(t *testing.T, c explore.Case) (res explore.Result) {
 					m["q"] = "ping"
 					m["a"] = sim.M{"id": sim.IDStr(peerID)}
 					m["r"] = sim.M{"id": sim.IDStr(peerID)}
+				case "qsame": // a *query* from that address that happens to carry the pending query's t
+					m["y"] = "q"
+					m["q"] = "ping"
+					m["a"] = sim.M{"id": sim.IDStr(peerID)}
+					ws, _ := y.Deliver(src, sim.Enc(m))
+					exp := y.allow(c08Reference(y.cfg, "ping", "full"))
+					outs := DecodeWrites(ws)
+					for _, o := range outs {
+						if v := c08CheckForm(o, src, tid); v != "" {
+							res.Viol = v + " [" + l + "]"
+							return
+						}
+					}
+					if len(outs) != exp.Count {
+						res.Viol = fmt.Sprintf("wrong-count: %s (a ping whose t equals that of our own pending query to the sender) in config %s produced %d datagrams (%s), reference says %d", l, y.cfg, len(outs), Briefs(ws), exp.Count)
+						return
+					}
+					if done != nil {
+						select {
+						case r := <-done:
+							if r.Err == nil {
+								res.Viol = "completed-by-query: our pending ping was completed by an inbound *query* carrying its t"
+								return
+							}
+						default:
+						}
+					}
+					outcome = append(outcome, "qsame")
+					time.Sleep(5 * time.Second) // let our own ping time out before the bubble ends
+					synctest.Wait()
+					y.Take()
+					continue
 				}
 				ws, _ := y.Deliver(src, sim.Enc(m))
 				if len(ws) != 0 {
@@ -473,13 +509,14 @@ func TestC08(t *testing.T) {
 						hs = append(hs, []string{c08Query{m, sh, tn, sn}.letter()})
 					}
 				}
+				hs = append(hs, []string{c08Query{m, sh, "aa", "v6zone"}.letter()})
 			}
 			unit(cfg.Name, hs)
 		}
 		var hs [][]string
-		for _, yv := range []string{"r", "e", "zz", "none", "rq"} {
+		for _, yv := range []string{"r", "e", "zz", "none", "rq", "qsame"} {
 			for _, k := range []string{"unmatched", "matched"} {
-				for _, sn := range []string{"v4", "v6", "mapped"} {
+				for _, sn := range []string{"v4", "v6", "mapped", "v6zone"} {
 					hs = append(hs, []string{"n:" + yv + ":" + k + ":" + sn})
 				}
 			}
